@@ -11,7 +11,7 @@ from .. import facts
 from .. import terms as T
 from ..core import AnalysisError
 from ..model import FuncRef, NotConst
-from .oracle_tables import REQUIRED_KEYS_SOFT_OK
+from .oracle_tables import REQUIRED_KEYS_SOFT_OK, REQUIRED_IN_OPTIONAL_SECTION
 
 HOLE = ("bound", "□")
 
@@ -462,7 +462,8 @@ def r_required(model, rep):
                 if k is None:
                     continue
                 n += 1
-                guarded = any(T.contains(g[0], lambda x: x[0] == "call" and x[1][0] == "attr" and x[1][2] in ("has_option", "has_section"))
+                probes = ("has_option",) if (qname, k) in REQUIRED_IN_OPTIONAL_SECTION else ("has_option", "has_section")
+                guarded = any(T.contains(g[0], lambda x: x[0] == "call" and x[1][0] == "attr" and x[1][2] in probes)
                               for g in r.guards)
                 soft = s[1] == "soft" or guarded
                 if not soft:
